@@ -23,6 +23,7 @@ from pyvc.prop import Property, Structural, Bounded, BoundedResult
 from . import dictmbx as D
 from .dictmbx import MBX, Msg, F, lock_ctx, LockCtx
 from .modseq import ModSeq
+from . import maildir as MD        # the maildir half: UID list discipline of append/copy/move/reset (shared with C15)
 
 _ms_mod = ['self._highest', 'self._uids', 'self._updates', 'self._expunges', 'self._mod_seqs_order', 'self.g_pos']
 weak_update = Contract('C04', F, '_ModSequenceMapping.update', params=dict(self=ModSeq, uids=ListS(INT)),
@@ -215,7 +216,7 @@ def _bounded():
 
 PROPERTY = Property(
     'C04', 'UIDs strictly increasing, never reused, truthfully reported',
-    contracts=[append, copy, move, delete, snapshot_weak, snapshot_exact],
+    contracts=[append, copy, move, delete, snapshot_weak, snapshot_exact] + MD.CONTRACTS,
     registry=REG, bounded=_bounded(),
     structural=[Structural('NoYieldUnderLock', no_yield_under_lock),
                 Structural('mutators_covered', mutators_covered)],
